@@ -1,5 +1,6 @@
 import Driver.Util
 import Hv.Conc.Vigil
+import Hv.Conc.VigilMu
 
 /-! Line-protocol driver for the vigil / sync.Cond model (domain C17). Same ops and reply format
     as `/verif/harness/c17.go`; each op is a fixed sequence of LTS actions (the harness stops the
@@ -19,6 +20,7 @@ structure DSt where
   /-- the harness holds the mutex; what lined up on it: `none` = a CeaseVigil, `some w` = waiter `w` -/
   muHeld : Bool := false
   closeCancels : Bool := true
+  drainBeforeMu : Bool := true
   muQueue : List (Option Nat) := []
 
 def act (d : DSt) (a : Act) : DSt :=
@@ -56,7 +58,7 @@ def stepLine (d : DSt) (line : String) : DSt × String :=
   let ws := words line
   if d.muHeld && !(ws.head? ∈ [some "begin", some "cease", some "wait", some "freemu", some "case"]) then (d, "busy") else
   match ws with
-  | ["case", _] => ({ cfg := d.cfg, closeCancels := d.closeCancels }, line)
+  | ["case", _] => ({ cfg := d.cfg, closeCancels := d.closeCancels, drainBeforeMu := d.drainBeforeMu }, line)
   | ["holdmu"] =>
     if d.held.isSome then (d, "busy") else
     let d := { d with muHeld := true }
@@ -77,6 +79,15 @@ def stepLine (d : DSt) (line : String) : DSt × String :=
         else (d, acc.2 ++ [s!"{w + 1}:done"])) ({ d with muHeld := false }, [])
     let d := { d with muQueue := [] }
     (d, s!"freemu {" ".intercalate res} {render d}")
+  | ["destroysave"] =>
+    -- the LTS of Hv.Conc.VigilMu: one operation in flight (`begin`), `destroy` starts; then everything that can run, runs
+    let cfg : Hv.VigilMu.Cfg := ⟨!d.drainBeforeMu⟩
+    let s1 := (Hv.VigilMu.run cfg Hv.VigilMu.init [.begin, .dStart]).getD Hv.VigilMu.init
+    let fin := Hv.VigilMu.run cfg Hv.VigilMu.init [.begin, .dStart, .rlock, .runlock, .cease, .dDrained, .dTear, .dUnlock]
+    let mu := if s1.muW then "held" else "free"
+    match fin with
+    | some _ => (d, s!"destroysave mu={mu} done")
+    | none => (d, s!"destroysave mu={mu} stuck\t#F:C17-destroy-locks-swamp-before-drain")
   | ["closefail"] =>
     if d.closeCancels then (d, "closefail returned") else (d, "closefail stuck\t#F:C17-close-never-completes")
   | ["begin"] =>
@@ -260,7 +271,7 @@ def run (args : List String) : IO UInt32 := do
   if arg kv "mode" == "trace" then
     lineLoop tstep { cfg := cfg }
     return 0
-  lineLoop stepLine { cfg := cfg, closeCancels := arg kv "closeCancels" != "no" }
+  lineLoop stepLine { cfg := cfg, closeCancels := arg kv "closeCancels" != "no", drainBeforeMu := arg kv "drainBeforeSwampMu" != "no" }
   return 0
 
 end Driver.C17
